@@ -87,6 +87,17 @@ class Prop(PropBase):
                 c.update(dict_cls='dict', list_cls='list', frozen=False)
                 cases.append(c)
                 continue
+            if rng.random() < 0.03:
+                # containers that compare equal but are not the same (1 == True == 1.0 in Python): each keeps
+                # its own leaves
+                a, b = rng.sample([1, True], 2) if rng.random() < 0.7 else rng.sample([0, False], 2)
+                tail = rng.choice(['{k}', 'lit', '{k}-{n}'])
+                t1, t2 = {'t': [a, tail]}, {'t': [b, tail]}
+                val = rng.choice([{'l': [t1, t2]}, {'d': [['p', t1], ['q', t2]]}, {'t': [t1, 'mid', t2]},
+                                  {'l': [{'l': [t1]}, t2, t1]}])
+                cases.append({'ctx': [['k', 'x'], ['n', 3]], 'val': val, 'dict_cls': 'dict', 'list_cls': 'list',
+                              'frozen': False})
+                continue
             pairs, cmap = G.gen_context(rng)
             avail = [k for k, _ in pairs]
             p_fmt = rng.choice([0.0, 0.15, 0.4])
